@@ -6,6 +6,7 @@
 package verifrt
 
 import (
+	"bytes"
 	"encoding/json"
 	"fmt"
 	"math"
@@ -53,7 +54,9 @@ func load() {
 		panic("verifrt: " + err.Error())
 	}
 	var rf replayFile
-	if err := json.Unmarshal(data, &rf); err != nil {
+	dec := json.NewDecoder(bytes.NewReader(data))
+	dec.UseNumber() // 64-bit integers must not go through float64
+	if err := dec.Decode(&rf); err != nil {
 		panic("verifrt: " + err.Error())
 	}
 	recs = rf.Nondet
